@@ -29,7 +29,7 @@ RULE = (
     "initial state (open token / continuation flag set / initial phase / unfinished generator / a region was found / "
     "previous verdict differs / cursor moved)."
 )
-MUST_HIT = ["abandoned_generator_closed_mid_run", "buffer_position_set_while_closed",
+MUST_HIT = ["first_interrupted_by_exception", "abandoned_generator_closed_mid_run", "buffer_position_set_while_closed",
             "first_open_token", "first_after_cut", "first_init_phase", "first_gen_partial", "first_gen_unstarted",
             "split_region", "split_bytes", "split_recorder", "validator", "buffer_reopen"]
 ASSUMPTIONS = ["fresh-object output is the reference (judged by C01-C07)"]
@@ -82,6 +82,29 @@ def check_tok(case, rec):
                 break
         if got_n == first[1]:
             classes.add("first_gen_partial")
+    elif isinstance(first, list) and first[0] == "raise":
+        # the first use dies of an exception raised by its data source after k frames
+        class _Boom(Exception):
+            pass
+
+        class _Failing(tok.DataSource):
+            def __init__(self, inner, after):
+                self.inner, self.left = inner, after
+
+            def read(self):
+                if self.left <= 0:
+                    raise _Boom()
+                self.left -= 1
+                return self.inner.read()
+
+        try:
+            if first[2] == "list":
+                tk.tokenize(_Failing(s1, first[1]))
+            else:
+                for _t in tk.tokenize(_Failing(s1, first[1]), generator=True):
+                    pass
+        except _Boom:
+            classes = tok_state_classes(case["pat1"][: first[1]], p) | {"first_interrupted_by_exception"}
     elif isinstance(first, list) and first[0] == "gen_close_mid":
         # the abandoned generator is finalised (closed, as the garbage collector would do) in the
         # middle of the later run
@@ -122,7 +145,8 @@ def check_tok(case, rec):
         return [((s, e), [idx.get(id(f), -1) for f in fr] if idx is not None else list(fr)) for fr, s, e in toks]
 
     a, b = norm(second, f2), norm(fresh, f3)
-    nt = bool(classes & {"first_open_token", "first_after_cut", "first_init_phase", "first_gen_partial", "first_gen_unstarted"})
+    nt = bool(classes & {"first_open_token", "first_after_cut", "first_init_phase", "first_gen_partial", "first_gen_unstarted",
+                         "first_interrupted_by_exception"})
     rec.note(case, nt, classes, out=[x[0] for x in a])
     if a != b:
         raise Violation(
@@ -241,6 +265,8 @@ def explicit_cases():
         {"t": "tok", "pat1": "0101", "pat2": "1011", "p": [1, 4, 1, 2, 1, 0], "first": "cb", "kind": "bytes"},
         {"t": "tok", "pat1": "011", "pat2": "1", "p": [1, 3, 2, 0, 0, 4], "first": "list", "kind": "obj", "deliv": "gen"},
         {"t": "tok", "pat1": "0110110", "pat2": "0110110011", "p": [1, 2, 0, 0, 0, 0], "first": ["gen_close_mid", 1, 1], "kind": "obj"},
+        {"t": "tok", "pat1": "0111101", "pat2": "10", "p": [2, 4, 1, 0, 0, 0], "first": ["raise", 5, "list"], "kind": "obj"},
+        {"t": "tok", "pat1": "0111101", "pat2": "10", "p": [2, 4, 1, 0, 0, 0], "first": ["raise", 5, "gen"], "kind": "char"},
         {"t": "buf", "sr": 10, "sw": 2, "ch": 2, "N": 9, "salt": 1, "reads": [2], "then": 4, "pos_closed": 5},
         {"t": "split", "audio": a, "win": [2, 4, 1, False, False], "how": "region", "times": 3},
         {"t": "split", "audio": a, "win": [2, 4, 1, True, False], "how": "bytes", "times": 2},
@@ -257,7 +283,8 @@ def strategy(draw):
         p = draw(gen.tok_params(8))
         first = draw(st.one_of(st.sampled_from(["list", "cb", "gen_unstarted"]),
                                st.tuples(st.just("gen"), st.integers(0, 3)).map(list),
-                               st.tuples(st.just("gen_close_mid"), st.integers(0, 2), st.integers(0, 2)).map(list)))
+                               st.tuples(st.just("gen_close_mid"), st.integers(0, 2), st.integers(0, 2)).map(list),
+                               st.tuples(st.just("raise"), st.integers(0, 30), st.sampled_from(["list", "gen"])).map(list)))
         return {"t": "tok", "pat1": draw(gen.pattern(p, 40)), "pat2": draw(gen.pattern(p, 40)), "p": p, "first": first,
                 "kind": draw(st.sampled_from(tok.KINDS)), "deliv": draw(st.sampled_from(tok.DELIVS))}
     if t == "split":
